@@ -91,7 +91,7 @@ func (fun *Fun) adjoin(b []byte) []byte {
 	}
 	for _, n := range fun.children {
 		if n.newline() {
-			b = append(b, indent[:offset+1]...)
+			b = newlineIndent(b, offset)
 		} else {
 			b = append(b, ' ')
 		}
